@@ -519,7 +519,17 @@ fn funcs(r: &mut Runner, t: bool) {
     }
     // type-level deviations, every n up to a bound, default run-time configuration + a few run-time ones
     let nt = if t { 600 } else { 130 };
-    let few = [d.clone(), Cfg { offline: true, ..d.clone() }, Cfg { hint: Hint::K800, ..d.clone() }, Cfg { vals: Vals::AllMax, threads: 1, ..d.clone() }, Cfg { vals: Vals::AllZero, hint: Hint::Absent, ..d.clone() }];
+    // (low_mem selects the peeler of the logics that do not use lazy Gaussian elimination: MWHC at every size,
+    // the unsharded fuse logic above 100 000 keys, everything above 800 000)
+    let few = [
+        d.clone(),
+        Cfg { offline: true, ..d.clone() },
+        Cfg { hint: Hint::K800, ..d.clone() },
+        Cfg { vals: Vals::AllMax, threads: 1, ..d.clone() },
+        Cfg { vals: Vals::AllZero, hint: Hint::Absent, ..d.clone() },
+        Cfg { low_mem: Some(true), ..d.clone() },
+        Cfg { low_mem: Some(false), threads: 2, ..d.clone() },
+    ];
     for n in 0..=nt {
         for (ci, c) in few.iter().enumerate() {
             if ci > 0 && n % 5 != 0 && n > 12 {
@@ -561,6 +571,12 @@ fn funcs(r: &mut Runner, t: bool) {
             func_case!(r, "usize,Box<[usize]>,[u64;2],FuseLge3FullSigs", n, &d, keys = usize, W = usize, D = Box<[usize]>, S = [u64; 2], E = FuseLge3FullSigs);
             func_case!(r, "usize,Box<[usize]>,[u64;2],FuseLge3NoShards", n, &d, keys = usize, W = usize, D = Box<[usize]>, S = [u64; 2], E = FuseLge3NoShards);
             func_case!(r, "usize,BitFieldVec<usize>,[u64;1],FuseLge3NoShards", n, &d, keys = usize, W = usize, D = BitFieldVec<usize>, S = [u64; 1], E = FuseLge3NoShards);
+            // both peelers of the non-LGE path
+            let lm = Cfg { low_mem: Some(true), ..d.clone() };
+            func_case!(r, "usize,Box<[usize]>,[u64;2],FuseLge3NoShards", n, &lm, keys = usize, W = usize, D = Box<[usize]>, S = [u64; 2], E = FuseLge3NoShards);
+            func_case!(r, "usize,Box<[usize]>,[u64;2],Mwhc3Shards", n, &lm, keys = usize, W = usize, D = Box<[usize]>, S = [u64; 2], E = Mwhc3Shards);
+            let hm = Cfg { low_mem: Some(false), ..d.clone() };
+            func_case!(r, "usize,BitFieldVec<usize>,[u64;1],FuseLge3NoShards", n, &hm, keys = usize, W = usize, D = BitFieldVec<usize>, S = [u64; 1], E = FuseLge3NoShards);
         }
     }
 }
